@@ -42,6 +42,11 @@ CLAIMED = {
          "Generated-input search with a line-discipline lint, a round trip on folded values and a metamorphic relation over producer chunkings; all sampled.",
          "Header lines > 78 with a folding opportunity inside MIME *part* headers (written through multipart.CreatePart) are a recorded known finding (part-header-unfolded), excluded by signature and counted; the 78 rule is enforced without exception on top-level header sections, all other rules on all sections and bodies.",
          "DESIGN.md section 3, C18"),
+ "C20": ("fault_enumeration",
+         "reply injection (codes 400..599 x text kinds x positions MAIL/RCPT subset/DATA/end-of-data/RSET x batches x ESC advertised or not) against the reference server; oracle: a model computed from the replies the server actually sent (reason, code, temporariness, enhanced code, rejected recipients, per-message and joined errors)",
+         "Thorough enumerates all 200 reply codes x 5 positions x ENHANCEDSTATUSCODES on/off x 4 text kinds for a single message completely; batches with several faults are sampled by rapid (quick: sampled only).",
+         "Only reply outcomes are injected (no disconnects); the recipients listed are read from SendError.Error() because the type exposes them nowhere else.",
+         "DESIGN.md section 3, C20"),
 }
 
 NOT_YET = "check not built yet (work in progress; planned in DESIGN.md section 3)"
